@@ -1,9 +1,117 @@
-(* C03 - stub while the proofs are being written *)
-From Coq Require Import List ZArith Bool.
-From YV Require Import Common.Corr Model.Lexer Gen.LexFacts.
+(* C03 - Parsing is total: a statement or a YAQL parsing error, nothing else.
+   Property theorems only.  The model is Model/Lexer.v (the yaql token rules as
+   ply drives them), tied to yaql/language/lexer.py by the regenerated facts of
+   Gen/LexFacts.v + Gen/CharClass.v and by the correspondence check of
+   harness/props/c03.py.  The LALR grammar check is abstract: any function of the
+   token list that reports errors at token indices. *)
+From Coq Require Import List ZArith Bool Arith.
+From YV Require Import Common.Corr Gen.LexFacts Model.Lexer Lemmas.LexerTotal.
 Import ListNotations.
 
+(* the configuration read from the current tree is well formed: no string rule
+   matches the empty string, every token type the keyword rule can produce is a
+   declared token, the conversions in the token actions are guarded, and t_error
+   raises YaqlLexicalException (whatever the \N{name} oracle is) *)
+Theorem C03_default_cfg_wf : forall names, cfg_wfb (default_cfg names) = true.
+Proof. intro names. vm_compute. reflexivity. Qed.
+
+(* the regex sources, the order of the alternatives of ply's master regex and the
+   regex flags are the ones the matchers of Model/Lexer.v were written for *)
 Theorem C03_regexes_pinned :
   rule_sources = pinned_rule_sources /\ escape_source = pinned_escape_source /\
-  master_order = expected_master_order /\ lexer_flags = flag_verbose_unicode /\ escape_flags = flag_verbose_unicode.
+  master_order = expected_master_order /\
+  lexer_flags = flag_verbose_unicode /\ escape_flags = flag_verbose_unicode.
 Proof. repeat split; reflexivity. Qed.
+
+(* lexing never lets a foreign exception class escape and never runs out of fuel;
+   a lexical error is reported at a position inside the text *)
+Theorem C03_lex_total : forall cfg s, cfg_wfb cfg = true ->
+  match snd (lex cfg s) with
+  | EndOk => True
+  | EndLexErr p => (p < length s)%nat
+  | EndForeign => False
+  | EndFuel => False
+  end.
+Proof.
+  exact (fun cfg s WF =>
+    match lex_inv cfg s (wf_ops_nonempty cfg WF) with
+    | conj A (conj B (conj C _)) =>
+      match snd (lex cfg s) as e
+        return (e <> EndFuel -> (cfg_wfb cfg = true -> e <> EndForeign) ->
+                (forall p, e = EndLexErr p -> (p < length s)%nat) ->
+                match e with EndOk => True | EndLexErr p => (p < length s)%nat | EndForeign => False | EndFuel => False end)
+      with
+      | EndOk => fun _ _ _ => I
+      | EndLexErr p => fun _ _ c => c p eq_refl
+      | EndForeign => fun _ b _ => b WF eq_refl
+      | EndFuel => fun a _ _ => a eq_refl
+      end A B C
+    end).
+Qed.
+
+(* fuel [length s + 1] suffices (every token and every ignored character consumes
+   at least one code point), and more fuel changes nothing *)
+Theorem C03_terminates : forall cfg s, ops_nonempty cfg ->
+  snd (lex cfg s) <> EndFuel /\
+  forall fuel, (length s < fuel)%nat -> lex_loop cfg fuel 0 None s = lex cfg s.
+Proof.
+  exact (fun cfg s NE =>
+    conj (proj1 (lex_inv cfg s NE))
+         (fun fuel L => lex_loop_fuel_mono cfg (S (length s)) 0%nat None s NE (Nat.lt_succ_diag_r _) fuel L)).
+Qed.
+
+(* the tokens lie one after the other inside the text, each at least one code point long *)
+Theorem C03_token_positions_in_range : forall cfg s, ops_nonempty cfg ->
+  tiles 0 (length s) (fst (lex cfg s)) /\
+  forall t, In t (fst (lex cfg s)) -> (1 <= tk_len t /\ tk_pos t + tk_len t <= length s)%nat.
+Proof.
+  exact (fun cfg s NE =>
+    let D := proj2 (proj2 (proj2 (lex_inv cfg s NE))) in
+    conj D (fun t I => proj2 (tiles_In _ _ _ t D I))).
+Qed.
+
+(* the parser's outcome, for ANY grammar check that reports its errors at tokens it was
+   given: a statement, a lexical error inside the text, a grammar error at the position
+   of a token of the text (hence inside it) or at end of input - nothing else *)
+Theorem C03_total : forall cfg (gram : list token -> option (option nat)) s,
+  cfg_wfb cfg = true ->
+  (forall toks i, gram toks = Some (Some i) -> (i < length toks)%nat) ->
+  match parse_outcome cfg gram s with
+  | PForeign | PFuel => False
+  | PLex p => (p < length s)%nat
+  | PGram (Some p) => (p < length s)%nat /\ exists t, In t (fst (lex cfg s)) /\ tk_pos t = p
+  | PGram None | POk => True
+  end.
+Proof. exact (fun cfg gram s WF G => parse_outcome_total cfg gram G s WF). Qed.
+
+(* ---- the statements are not vacuous ---- *)
+Definition nonames : text -> option Z := fun _ => None.
+
+(* 1 + 2 : three tokens *)
+Example lex_sum : lex (default_cfg nonames) [49; 32; 43; 32; 50]%Z =
+  ([mkTok K_NUMBER 0 1 (VInt 1); mkTok [79; 80; 95; 68]%Z 2 1 (VText [43]%Z); mkTok K_NUMBER 4 1 (VInt 2)], EndOk).
+Proof. vm_compute. reflexivity. Qed.
+
+(* '\xzz' : a lexical error at the position of the string token *)
+Example lex_bad_escape : lex (default_cfg nonames) [32; 39; 92; 120; 122; 122; 39]%Z = ([], EndLexErr 1).
+Proof. vm_compute. reflexivity. Qed.
+
+(* a # : the keyword, then t_error at position 2 *)
+Example lex_illegal_char : lex (default_cfg nonames) [97; 32; 35]%Z =
+  ([mkTok K_KEYWORD 0 1 (VText [97]%Z)], EndLexErr 2).
+Proof. vm_compute. reflexivity. Qed.
+
+(* the premise matters: with the guard around escape decoding removed (the code
+   before the repair of finding F2) the codec's exception escapes *)
+Definition unguarded_cfg : lexcfg :=
+  let c := default_cfg nonames in
+  Build_lexcfg (is_w c) (is_d c) (digit_val c) (op_strs c) (op_table c) (keywords c) (kwvals c) (tok_names c)
+               (literals c) (ignore c) (max_digits c) false false (error_yaql c) (uname c).
+Example unguarded_is_not_total : snd (lex unguarded_cfg [39; 92; 120; 122; 122; 39]%Z) = EndForeign.
+Proof. vm_compute. reflexivity. Qed.
+
+(* a grammar check satisfying the premise of C03_total *)
+Example gram_premise_satisfiable :
+  let gram := fun toks : list token => match toks with [] => Some None | _ :: _ :: _ => Some (Some 1%nat) | _ => None end in
+  forall toks i, gram toks = Some (Some i) -> (i < length toks)%nat.
+Proof. intros gram [|a [|b r]] i; cbn; try discriminate. intros [= <-]. cbn. auto with arith. Qed.
